@@ -122,6 +122,48 @@ func emitRestFacts(repo string) {
 		fmt.Printf("  (%s, [%s])%s\n", detLeanStr(r.verb), strings.Join(parts, ", "), sep)
 	}
 	fmt.Println("]")
+	// package-level variables of internal/restclient (non-test files): state that would outlive one method / one type
+	type pv struct{ file, name, typ string }
+	var vars []pv
+	if ents, err := filepath.Glob(filepath.Join(repo, "internal", "restclient", "*.go")); err == nil {
+		for _, fn := range ents {
+			if strings.HasSuffix(fn, "_test.go") || strings.HasSuffix(fn, "verif_export.go") {
+				continue
+			}
+			pf, err := parser.ParseFile(fset, fn, nil, 0)
+			if err != nil {
+				continue
+			}
+			for _, d := range pf.Decls {
+				gd, ok := d.(*ast.GenDecl)
+				if !ok || gd.Tok != token.VAR {
+					continue
+				}
+				for _, sp := range gd.Specs {
+					vs := sp.(*ast.ValueSpec)
+					typ := ""
+					if vs.Type != nil {
+						typ = detExprText(fset, vs.Type)
+					} else if len(vs.Values) > 0 {
+						typ = "= " + detExprText(fset, vs.Values[0])
+					}
+					for _, n := range vs.Names {
+						vars = append(vars, pv{filepath.Base(fn), n.Name, typ})
+					}
+				}
+			}
+		}
+	}
+	fmt.Println("/-- every package-level `var` of internal/restclient (file, name, type or initialiser) -/")
+	fmt.Println("def restPkgVars : List (String × String × String) := [")
+	for i, v := range vars {
+		sep := ","
+		if i == len(vars)-1 {
+			sep = ""
+		}
+		fmt.Printf("  (%s, %s, %s)%s\n", detLeanStr(v.file), detLeanStr(v.name), detLeanStr(v.typ), sep)
+	}
+	fmt.Println("]")
 	fmt.Println("/-- the BodyHTTPMethods slice literal of cookClient -/")
 	var bv []string
 	for _, v := range bodyVerbs {
